@@ -266,16 +266,36 @@ mod alloc_spy {
     }
 }
 
+/// (size, align, pointer, count ok) of the allocation behind `bx`: from the stub under Kani, from the
+/// tracking global allocator natively
 #[cfg(kani)]
-fn spy_check<T: ?Sized>(bx: &Box<T>, total: usize) {
+fn observed_alloc<T: ?Sized>(_bx: &Box<T>) -> Option<(usize, usize)> {
     use alloc_spy::*;
-    let l = Layout::for_value(&**bx);
     unsafe {
-        vassert!(ALLOCS == 1, "allocated once");
-        vassert!(A_SIZE == round8(total) && A_ALIGN == 8, "allocation is the total rounded up to 8, 8-aligned");
-        vassert!(l.size() == A_SIZE && l.align() == A_ALIGN, "the layout Box frees with is the layout that was allocated");
-        vassert!(&**bx as *const T as *const u8 as usize == A_PTR, "the box owns the allocated block");
+        if ALLOCS == 1 && A_PTR == &**_bx as *const T as *const u8 as usize {
+            Some((A_SIZE, A_ALIGN))
+        } else {
+            None
+        }
     }
+}
+#[cfg(not(kani))]
+fn observed_alloc<T: ?Sized>(bx: &Box<T>) -> Option<(usize, usize)> {
+    crate::nd::alloc_track::layout_of(&**bx as *const T as *const u8 as usize)
+}
+
+fn spy_check<T: ?Sized>(bx: &Box<T>, total: usize) {
+    let l = Layout::for_value(&**bx);
+    let o = observed_alloc(bx);
+    vassert!(o.is_some(), "the box owns exactly one allocated block");
+    let (a_size, a_align) = o.unwrap();
+    vassert!(a_size == round8(total) && a_align == 8, "allocation is the total rounded up to 8, 8-aligned");
+    vassert!(l.size() == a_size && l.align() == a_align, "the layout Box frees with is the layout that was allocated");
+}
+
+fn after_drop() {
+    #[cfg(not(kani))]
+    vassert!(!crate::nd::alloc_track::mismatch_seen(), "freed with the layout it was allocated with");
 }
 
 // @harness props=C16 tier=quick panic=forbid builder=yes kflags=-Z~stubbing
@@ -294,18 +314,18 @@ pub fn c16_layout_header_tag() {
         let hdr = HeaderTagHeader::new(HeaderTagType::ModuleAlign, HeaderTagFlag::Required, 0);
         let bx: Box<DynSizedStructure<HeaderTagHeader>> = new_boxed(hdr, &[&data[..n]]);
         vassert!(bx.header().size() as usize == 8 + n, "size field");
-        #[cfg(kani)]
         spy_check(&bx, 8 + n);
         cover!(n == 3, "padded");
         drop(bx);
+        after_drop();
     } else {
         let reqs = [MbiTagTypeId::new(nd::any()), MbiTagTypeId::new(nd::any())];
         let n: usize = nd::any();
         nd::assume(n <= 2);
         let bx = InformationRequestHeaderTag::new(HeaderTagFlag::Optional, &reqs[..n]);
-        #[cfg(kani)]
         spy_check(&bx, 8 + 4 * n);
         drop(bx);
+        after_drop();
     }
 }
 
@@ -323,17 +343,17 @@ pub fn c16_layout_tag_and_header() {
     nd::assume(c <= n && n <= 5);
     if nd::any_bool() {
         let bx: Box<DynSizedStructure<TagHeader>> = new_boxed(TagHeader::new(TagTypeId::new(9), 0), &[&data[..c], &data[c..n]]);
-        #[cfg(kani)]
         spy_check(&bx, 8 + n);
         drop(bx);
+        after_drop();
     } else {
         use multiboot2_header::Multiboot2BasicHeader;
         let mut proto = Aligned::<16>([0; 16]);
         put32(&mut proto.0, 0, 0xE852_50D6);
         let hdr: Multiboot2BasicHeader = unsafe { core::ptr::read(proto.0.as_ptr().cast()) };
         let bx: Box<DynSizedStructure<Multiboot2BasicHeader>> = new_boxed(hdr, &[&data[..c], &data[c..n]]);
-        #[cfg(kani)]
         spy_check(&bx, 16 + n);
         drop(bx);
+        after_drop();
     }
 }
